@@ -88,6 +88,24 @@ def explore_cases(ctx, drv, interp):
             continue
         finally:
             os.environ.pop(ENVVAR, None)
+        if i % 3 == 0 and res.get("params") is not None:
+            # the serializer is a method of a reusable object: a second call on the same ModelModifier must produce the same file
+            try:
+                from ai_edge_quantizer import model_modifier
+                mm = model_modifier.ModelModifier(case.mb)
+                os.environ[ENVVAR] = "0"
+                first = bytes(mm.modify_model(copy.deepcopy(res["params"])))
+                second = bytes(mm.modify_model(copy.deepcopy(res["params"])))
+                ctx.tag("modifier_reused")
+                if first != large:
+                    ctx.fail("ModelModifier.modify_model differs from Quantizer.quantize on the large-model path", case.replay(), "modifier-vs-quantizer")
+                elif second != first:
+                    ctx.fail("a second modify_model call on the same ModelModifier (same parameters, large-model path) returns a different file",
+                             case.replay(), "modifier-reuse-differs")
+            except (AttributeError, TypeError):
+                ctx.tag("modifier_reuse_not_drivable")
+            finally:
+                os.environ.pop(ENVVAR, None)
         ms = pl.read(small)
         nonempty = [(i_, bytes(np.asarray(b.data, dtype=np.uint8).tobytes())) for i_, b in enumerate(ms.buffers) if b.data is not None and len(b.data) > 0]
         if not nonempty:
